@@ -635,6 +635,17 @@ class World:
         if known is None:
             self.ideal_id[k] = o.id
         elif known != o.id and self.on("C03"):
+            # is a registered node with the same class / content / children but ANOTHER origin of the same fqn around?
+            for x in self.last_reach:
+                ix = self.info.get(id(x))
+                if ix is None or ix.ref() is not x or not ix.reg or x is o or cname(x) != cname(o):
+                    continue
+                if ix.okey != self.inf(o).okey and x.origin.fqn == o.origin.fqn and self.key(x) == self.key(o):
+                    raise self.viol(
+                        "C03.8 id-not-deterministic",
+                        "C03.8:origins-share-fqn",
+                        f"a {cname(o)} with origin {self.inf(o).okey} got id {o.id} (earlier {known}) because a node with the other origin {ix.okey} of the same fqn is registered",
+                    )
             raise self.viol(
                 "C03.8 id-not-deterministic",
                 "C03.8",
@@ -1045,7 +1056,8 @@ class Gen:
         m = r.choice(kinds)
         cls = t["c"]
         if m == "origin":
-            t["o"] = r.choice(list(U.ORIGINS))
+            # origins that share an fqn with another origin only in the runs configured for them (known finding C03.8)
+            t["o"] = r.choice(list(U.ORIGINS) if self.cfg.get("exotic_origins") else U.ORIGIN_KEYS)
         elif m == "prop":
             fs = [f for f in U.PROP_FIELDS[cls] if f.init and f.compare]
             if fs:
@@ -1524,6 +1536,10 @@ def make_config(rseed: int, prop: str, tier: str, faults: bool) -> dict[str, Any
     gcmode = "defer" if (prop == "C03" and r.random() < 0.15) else "exact"
     if gcmode == "defer":
         weights["gc"] = 3.0
+    exotic = prop == "C04" or (prop == "C03" and r.random() < 0.08)
+    origins = r.sample(U.ORIGIN_KEYS, r.choice([1, 2, 3])) + (r.sample(U.EXTRA_ORIGIN_KEYS, r.choice([1, 2, 3])) + ["g:a"] if prop == "C04" and r.random() < 0.4 else [])
+    if exotic and prop == "C03":
+        origins = r.choice([["c:a:0-5", "c:a:0-5@l2"], ["g:a", "c:a:0-0"]])
     return {
         "machine": NAME,
         "prop": prop,
@@ -1543,12 +1559,13 @@ def make_config(rseed: int, prop: str, tier: str, faults: bool) -> dict[str, Any
         "p_bad_replace": r.choice([0.2, 0.4]),
         "leaf_classes": leafs,
         "inner_classes": inner,
-        "origins": r.sample(U.ORIGIN_KEYS, r.choice([1, 2, 3])) + (r.sample(U.EXTRA_ORIGIN_KEYS, r.choice([1, 2, 3])) + ["g:a"] if prop == "C04" and r.random() < 0.4 else []),
+        "origins": origins,
         "pools": pools,
         "weights": weights,
         "formats": r.sample(list(FORMATS), r.choice([1, 2, 4])),
         "dyn_redefine": "Dyn" in leafs and r.random() < 0.6,
         "trace_logging": r.random() < 0.1,
+        "exotic_origins": exotic,
         "ser_faults": prop in ("C03", "C10", "C04"),
     }
 
